@@ -22,6 +22,8 @@ pub enum Kind {
     E,
     /// returns [name, argument] — makes results of different functions distinguishable
     Tag,
+    /// always fails, and the failure is itself a `reval::Error` (the `param.try_into()?` idiom)
+    ER,
 }
 
 #[derive(Clone, Debug)]
@@ -74,6 +76,9 @@ impl Log {
 }
 
 pub fn outcome_of(kind: Kind, name: &str, arg: &Value, fault: bool, j: usize) -> Result<Value, String> {
+    if kind == Kind::ER {
+        return Err(reval::Error::InvalidType.to_string());
+    }
     if fault || kind == Kind::E {
         return Err(format!("boom {name} #{j}"));
     }
@@ -83,7 +88,7 @@ pub fn outcome_of(kind: Kind, name: &str, arg: &Value, fault: bool, j: usize) ->
         Kind::N => Value::None,
         Kind::V => arg.clone(),
         Kind::Tag => Value::Vec(vec![Value::String(name.to_string()), arg.clone()]),
-        Kind::E => unreachable!(),
+        Kind::E | Kind::ER => unreachable!(),
     })
 }
 
@@ -119,6 +124,9 @@ impl UserFunction for TFn {
         };
         if self.desc.suspend > 0 {
             YieldN(self.desc.suspend).await;
+        }
+        if self.desc.kind == Kind::ER {
+            return Err(anyhow::Error::new(reval::Error::InvalidType));
         }
         outcome.map_err(|m| anyhow::anyhow!(m))
     }
